@@ -154,6 +154,34 @@ pub fn cases(tier: &str, seed: u64) -> Vec<Case> {
             }
         }
     }
+    // RDATA cut at every length with a consistent RDLENGTH: the record is the last of the message, its
+    // RDLENGTH takes every value from 0 to the natural size and the message ends there
+    for rep in 0..(if thorough { 6 } else { 1 }) {
+        for kind_rep in 0..(N_KINDS + 10) {
+            // IPSECKEY has four gateway shapes, SVCB/NSEC/OPT variable lists: a few more draws of those
+            let kind = if kind_rep < N_KINDS { kind_rep } else { [34usize, 34, 34, 34, 34, 34, 27, 38, 25, 13][kind_rep - N_KINDS] };
+            let mut p = Packet::new_reply(7);
+            p.answers.push(g.rr_of(kind));
+            let bytes = p.build_bytes_vec().unwrap();
+            if bytes.len() > 600 && rep > 0 { continue; }
+            if let Some(w) = crate::walker::walk(&bytes) {
+                let e = &w.sections[0][0];
+                let step = if e.rd_len > 300 { 5 } else { 1 };
+                for k in (0..e.rd_len).step_by(step) {
+                    let mut m = bytes[..e.rd_start + k].to_vec();
+                    m[e.rd_start - 2..e.rd_start].copy_from_slice(&(k as u16).to_be_bytes());
+                    v.push(parse_case(&m, "rdata-cut"));
+                    // and followed by another record, so that the framing stays plausible
+                    if k % 3 == 0 {
+                        let mut m2 = m.clone();
+                        m2[7] = 2;
+                        m2.extend_from_slice(&[0, 0, 1, 0, 1, 0, 0, 0, 1, 0, 4, 1, 2, 3, 4]);
+                        v.push(parse_case(&m2, "rdata-cut"));
+                    }
+                }
+            }
+        }
+    }
     // pointer structures hidden where nothing parses them as a name first — the header id and the
     // opaque RDATA of an earlier record — and reached through a legal backward pointer
     let junk_alpha: [u8; 7] = [0xC0, 0x00, 0x01, 0x17, 0x18, 0x19, 0x61];
